@@ -23,7 +23,7 @@ RULE = (
 )
 ASSUMPTIONS = ["os.path.splitext defines 'name without last extension'", "MemoryFS and the native filesystem list what was created"]
 MONITORS = ["asset_lookup", "exists", "repeat_read", "pack_banner"]
-REQUIRED = ["entry_matches_two_kinds", "multi_dot_name", "specified_other_case", "specified_in_subdir_other_case", "specified_missing_with_pattern_match",
+REQUIRED = ["directory_path_not_normalized", "entry_matches_two_kinds", "multi_dot_name", "specified_other_case", "specified_in_subdir_other_case", "specified_missing_with_pattern_match",
             "specified_missing_subdir_with_pattern_match", "specified_missing_no_match", "pattern_hit", "near_miss_only",
             "no_match_none", "pack_banner_inside", "pack_banner_beside", "pack_banner_none", "pack_sibling_prefix_name",
             "native", "memory"]
@@ -133,8 +133,11 @@ def cases(ctx):
                 props[k] = rng.choice(["nodir/x.png", "gfx2/banner.png", "GFX/banner.png"])
             else:
                 props[k] = None
+        for k in list(props):
+            if props[k] and rng.random() < 0.15:
+                props[k] = "./" + props[k]
         yield {"kind": "dir", "tree": {"dirs": {"Song": {"dirs": sub, "files": files}}, "files": {}}, "props": props,
-               "fs": rng.choice(["native", "memory"]), "sf": rng.choice(["sm", "ssc"])}
+               "fs": rng.choice(["native", "memory"]), "sf": rng.choice(["sm", "ssc"]), "dir_spelling": rng.choice([0, 0, 1, 2, 3])}
 
 
 def gen_pack(rng):
@@ -170,6 +173,15 @@ def check_dir(ctx, case, t):
 
     song = case["tree"]["dirs"]["Song"]
     sdir = t.join(t.root, "Song")
+    spelling = case.get("dir_spelling", 0)
+    if spelling == 1:
+        sdir = t.join(t.root, ".", "Song")
+    elif spelling == 2:
+        sdir = t.join(t.root, "Song", "..", "Song")
+    elif spelling == 3:
+        sdir = t.root + "//Song"
+    if spelling:
+        ctx.feat("directory_path_not_normalized")
     sf = (SMSimfile if case["sf"] == "sm" else SSCSimfile).blank()
     for k in KINDS:
         if k in sf:
@@ -198,7 +210,7 @@ def check_dir(ctx, case, t):
         spec = case["props"].get(k)
         named = []
         if spec:
-            parts = spec.split("/")
+            parts = [x for x in spec.split("/") if x != "."]
             d = song
             ok = True
             for p in parts[:-1]:
@@ -220,11 +232,11 @@ def check_dir(ctx, case, t):
             continue
         detail = {"kind": k, "spec": spec, "entries": entries, "subdirs": {n: list(s["files"]) for n, s in song["dirs"].items()}, "got": got}
         if named:
-            ctx.feat("specified_in_subdir_other_case" if "/" in spec else "specified_other_case")
+            ctx.feat("specified_in_subdir_other_case" if len([x for x in spec.split("/") if x != "."]) > 1 else "specified_other_case")
             ctx.expect(got in named, f"asset:{k}:named-file-exists-but-not-returned", want=named, **detail)
         else:
             if spec:
-                miss_sub = "/" in spec
+                miss_sub = len([x for x in spec.split("/") if x != "."]) > 1
                 if loose:
                     ctx.feat("specified_missing_subdir_with_pattern_match" if miss_sub else "specified_missing_with_pattern_match")
                 else:
